@@ -1237,7 +1237,13 @@ class SSHClientProcess(SSHProcess[AnyStr], SSHClientStreamSession[AnyStr]):
             self._recv_buf[datatype] = []
 
         buf = cast(AnyStr, '' if self._encoding else b'')
-        return buf.join(cast(Iterable[AnyStr], recv_buf))
+        result = buf.join(cast(Iterable[AnyStr], recv_buf))
+
+        # What is handed out no longer occupies the receive buffer
+        self._recv_buf_len -= len(result)
+        self._maybe_resume_reading()
+
+        return result
 
     def session_started(self) -> None:
         """Start a process for this newly opened client channel"""
